@@ -702,3 +702,223 @@ Proof.
     destruct acc as [|c acc]; [reflexivity|].
     destruct (Hrev (c :: acc) ltac:(discriminate)) as (c' & t & E). rewrite E. reflexivity.
 Qed.
+
+Lemma parse_core_unfold O dflt src :
+  parse_core O dflt src =
+  let '(r3, rem) := split_star O (normalise O src) in
+  match seq_items (map (piece_item dflt) (split_route r3 0 [])) with
+  | Ok its =>
+      let st := match rem with [] => Ok None
+                | _ => match name_check rem with
+                       | Ok _ => Ok (Some rem) | CompileError => CompileError
+                       | Unsupported => Unsupported | FactsDrift => FactsDrift end
+                end in
+      match st with
+      | Ok st => let p := mkPat its st in if has_dup (pat_names p) then CompileError else Ok p
+      | CompileError => CompileError | Unsupported => Unsupported | FactsDrift => FactsDrift
+      end
+  | CompileError => match rem with [] => CompileError
+                    | _ => match name_check rem with Unsupported => Unsupported | _ => CompileError end end
+  | Unsupported => Unsupported
+  | FactsDrift => FactsDrift
+  end.
+Proof. reflexivity. Qed.
+
+Lemma rsplit_star_nostar s : ~ In c_star s -> rsplit_star s = None.
+Proof.
+  induction s as [|c s IH]; simpl; intros H; [reflexivity|].
+  rewrite IH by (intros X; apply H; right; exact X).
+  destruct (N.eqb_spec c c_star); [exfalso; apply H; left; auto|reflexivity].
+Qed.
+
+Lemma rsplit_star_app a b : ~ In c_star b -> rsplit_star (a ++ c_star :: b) = Some (a, b).
+Proof.
+  intros H. induction a as [|c a IH]; simpl.
+  - rewrite (rsplit_star_nostar b H). reflexivity.
+  - rewrite IH. reflexivity.
+Qed.
+
+Lemma word_then_end_ident O n : n <> [] -> forallb ident_char n = true -> word_then_end O n = true.
+Proof.
+  induction n as [|c n IH]; [congruence|]. intros _ H. simpl in H. apply andb_true_iff in H as [Hc Hn].
+  assert (Hw : word O c = true).
+  { unfold word. destruct (ident_char_plain c Hc) as [-> _]. exact Hc. }
+  destruct n as [|d n'].
+  - simpl. rewrite Hw. apply orb_true_r.
+  - change (word_then_end O (c :: d :: n')) with (word O c && word_then_end O (d :: n')).
+    rewrite Hw, IH; [reflexivity|discriminate|exact Hn].
+Qed.
+
+Lemma has_old_colon s : has_old s = true -> In c_colon s.
+Proof.
+  induction s as [|c s IH]; simpl; [discriminate|]. intros H. apply orb_true_iff in H as [H|H].
+  - apply andb_true_iff in H as [H _]. apply N.eqb_eq in H. auto.
+  - auto.
+Qed.
+
+Lemma canon_hole_in b its n h : canon_items b its -> In (Hole n h) its -> hole_canon n h.
+Proof.
+  induction 1 as [b|l r Hne Hl Hr IH|b n' h' r Hh Hr IH]; simpl; intros Hin.
+  - destruct Hin.
+  - destruct Hin as [E|Hin]; [discriminate|auto].
+  - destruct Hin as [E|Hin]; [injection E as <- <-; exact Hh|auto].
+Qed.
+
+(* where a star or a colon can occur in the printed items *)
+Lemma hole_text_chars n h c : hole_canon n h -> In c (print_item (Hole n h)) -> c <> c_star.
+Proof.
+  intros [Hid Hh] Hin. destruct (ident_chars n Hid) as (_ & Hcs & _).
+  rewrite print_hole in Hin. destruct Hin as [<-|Hin]; [discriminate|].
+  apply in_app_or in Hin. destruct Hin as [Hin|[<-|[]]]; [|discriminate].
+  assert (Hn : forall x, In x n -> x <> c_star).
+  { intros x Hx. rewrite forallb_forall in Hcs. specialize (Hcs x Hx). apply ident_char_plain in Hcs. tauto. }
+  unfold body_of in Hin. destruct Hh as [->|(Hd & Hr & _)].
+  - simpl in Hin. auto.
+  - rewrite Hd in Hin. apply in_app_or in Hin. destruct Hin as [Hin|[<-|Hin]]; [auto|discriminate|].
+    rewrite forallb_forall in Hr. specialize (Hr c Hin). unfold reg_char_ok in Hr.
+    apply negb_true_iff in Hr. apply orb_false_iff in Hr as [_ Hr]. apply N.eqb_neq. exact Hr.
+Qed.
+
+Lemma lit_chars l c : forallb lit_char_ok l = true -> In c l -> c <> c_star /\ c <> c_colon.
+Proof.
+  intros H Hin. rewrite forallb_forall in H. specialize (H c Hin). unfold lit_char_ok in H.
+  apply negb_true_iff in H. apply orb_false_iff in H as [H Hcol]. apply orb_false_iff in H as [_ Hst].
+  split; apply N.eqb_neq; assumption.
+Qed.
+
+Lemma no_star_in_items b its : canon_items b its -> ~ In c_star (flat_map print_item its).
+Proof.
+  induction 1 as [b|l r Hne Hl Hr IH|b n h r Hh Hr IH]; cbn [flat_map]; intros Hin.
+  - destruct Hin.
+  - apply in_app_or in Hin. destruct Hin as [Hin|Hin]; [|auto].
+    destruct (lit_chars l c_star Hl Hin) as [X _]. congruence.
+  - apply in_app_or in Hin. destruct Hin as [Hin|Hin]; [|auto].
+    apply (hole_text_chars n h c_star Hh Hin). reflexivity.
+Qed.
+
+Lemma colon_needs_hole b its : canon_items b its -> In c_colon (flat_map print_item its) ->
+  exists n h, In (Hole n h) its.
+Proof.
+  induction 1 as [b|l r Hne Hl Hr IH|b n h r Hh Hr IH]; cbn [flat_map]; intros Hin.
+  - destruct Hin.
+  - apply in_app_or in Hin. destruct Hin as [Hin|Hin].
+    + destruct (lit_chars l c_colon Hl Hin) as [_ X]. congruence.
+    + destruct (IH Hin) as (n & h & H). exists n, h. right. exact H.
+  - exists n, h. left. reflexivity.
+Qed.
+
+Lemma has_brace_of_hole b its tail n h :
+  canon_items b its -> In (Hole n h) its -> has_brace (flat_map print_item its ++ tail) = true.
+Proof.
+  intros Hc Hin. apply has_brace_iff. pose proof (canon_hole_in b its n h Hc Hin) as Hh.
+  apply in_split in Hin. destruct Hin as (l1 & l2 & ->).
+  exists (flat_map print_item l1), (body_of n h), (flat_map print_item l2 ++ tail).
+  split; [|apply body_of_ok; exact Hh].
+  rewrite flat_map_app. cbn [flat_map]. rewrite print_hole. cbn [app].
+  rewrite <- !app_assoc. cbn [app]. rewrite <- app_assoc. reflexivity.
+Qed.
+
+(* canonical: begins with a literal starting with '/', literals non-empty, not adjacent and
+   free of { } * :, placeholders printable, remainder name an identifier, names distinct *)
+Definition canonical (p : pat) : Prop :=
+  (exists l0 r, items p = Lit (47%N :: l0) :: r)
+  /\ canon_items false (items p)
+  /\ match star p with Some n => ident n = true | None => True end
+  /\ has_dup (pat_names p) = false.
+
+Theorem print_parse_roundtrip O p :
+  canonical p -> parse_core O (Some spec_default_hole) (print_pat p) = Ok p.
+Proof.
+  intros ((l0 & r & Hi) & Hc & Hs & Hd).
+  set (A := flat_map print_item (items p)).
+  set (tail := match star p with Some n => c_star :: n | None => [] end).
+  assert (Hsrc : print_pat p = A ++ tail) by reflexivity.
+  assert (Htail_colon : ~ In c_colon tail).
+  { unfold tail. destruct (star p) as [n|]; [|intros []]. destruct (ident_chars n Hs) as (_ & Hcs & _).
+    intros [X|X]; [discriminate|]. rewrite forallb_forall in Hcs. specialize (Hcs _ X).
+    apply ident_char_plain in Hcs. tauto. }
+  assert (Hnorm : normalise O (print_pat p) = print_pat p).
+  { unfold normalise.
+    assert (Hob : has_old (print_pat p) && negb (has_brace (print_pat p)) = false).
+    { destruct (has_old (print_pat p)) eqn:Ho; [|reflexivity]. apply has_old_colon in Ho.
+      rewrite Hsrc in Ho. apply in_app_or in Ho. destruct Ho as [Ho|Ho]; [|contradiction].
+      destruct (colon_needs_hole false _ Hc Ho) as (n & h & Hin).
+      rewrite Hsrc. unfold A. rewrite (has_brace_of_hole false _ tail n h Hc Hin). reflexivity. }
+    rewrite Hob. rewrite Hsrc. unfold A. rewrite Hi. reflexivity. }
+  assert (Hsplit : split_star O (print_pat p) = (A, match star p with Some n => n | None => [] end)).
+  { unfold split_star. rewrite Hsrc. unfold tail. destruct (star p) as [n|].
+    - destruct (ident_chars n Hs) as (Hne & Hcs & _).
+      assert (Hns : ~ In c_star n).
+      { intros X. rewrite forallb_forall in Hcs. specialize (Hcs _ X). apply ident_char_plain in Hcs. tauto. }
+      rewrite (rsplit_star_app A n Hns), (word_then_end_ident O n Hne Hcs). reflexivity.
+    - rewrite app_nil_r, (rsplit_star_nostar A (no_star_in_items false _ Hc)). reflexivity. }
+  rewrite parse_core_unfold, Hnorm, Hsplit. unfold A.
+  rewrite (split_print false _ Hc []), (seq_items_exp false _ Hc [] ltac:(discriminate) ltac:(reflexivity)).
+  destruct p as [its st]. simpl in *. destruct st as [n|].
+  - destruct (ident_chars n Hs) as (Hne & _ & Hnc). destruct n as [|c n]; [congruence|].
+    rewrite Hnc. cbv beta iota zeta. unfold pat_names in *. simpl in *. rewrite Hd. reflexivity.
+  - cbv beta iota zeta. unfold pat_names in *. simpl in *. rewrite Hd. reflexivity.
+Qed.
+
+(* ---------- histories: a dispatch does not depend on earlier dispatches *)
+Lemma matcher_fresh : matcher_pure_ok = true.
+Proof. vm_compute. reflexivity. Qed.
+
+Theorem hist_outcomes_pointwise mt m steps :
+  hist_outcomes mt m steps = Some (map (fun s => fst (dispatch_request_with mt m (snd s) (fst s))) steps).
+Proof. unfold hist_outcomes. rewrite matcher_fresh. reflexivity. Qed.
+
+(* whatever was dispatched before (and whatever the callers did to the dictionaries they were
+   handed), the outcome of a dispatch is the one of its own path *)
+Theorem history_independent mt m pre1 pre2 s l1 l2 :
+  hist_outcomes mt m (pre1 ++ [s]) = Some l1 -> hist_outcomes mt m (pre2 ++ [s]) = Some l2 ->
+  last l1 ONone = last l2 ONone
+  /\ last l1 ONone = fst (dispatch_request_with mt m (snd s) (fst s)).
+Proof.
+  rewrite !hist_outcomes_pointwise. intros H1 H2. injection H1 as <-. injection H2 as <-.
+  rewrite !map_app. simpl. rewrite !last_last. auto.
+Qed.
+
+(* and, for declarations none of which is outside the sublanguage, every dispatch of a history is
+   the declarative specification's answer for ITS path *)
+Theorem history_spec_m O ds steps m sts l :
+  sup_with (spec_parse_m O) ds = true ->
+  connect_all_with (parse_pattern_m O) empty_mapper 0 ds = (m, sts) ->
+  hist_outcomes (match_pat_m O) m steps = Some l ->
+  spec_hist (spec_parse_m O) (spec_match_m O) ds steps =
+  map (fun o => match o with
+                | ODecodeError => SDecodeError | OMatch r d => SMatch r d
+                | ONone => SNone | OConfigError => SNothing end) l.
+Proof.
+  intros Hs H. rewrite hist_outcomes_pointwise. intros E. injection E as <-.
+  unfold spec_hist. rewrite map_map. apply map_ext. intros s.
+  exact (request_spec_m O ds (snd s) (fst s) m sts Hs H).
+Qed.
+
+(* regexes of the non-set classes with the four printable quantifiers do print and parse back *)
+Lemma parse_print_simple_hre c lo hi q :
+  match c with CSet _ _ => False | _ => True end -> print_quant lo hi = Some q ->
+  parse_reg (print_hre (mkHre c lo hi)) = Some (mkHre c lo hi).
+Proof.
+  intros Hc Hq. destruct c; try contradiction;
+    destruct lo as [|[|lo]]; destruct hi as [[|[|hi]]|]; try discriminate; reflexivity.
+Qed.
+
+Require Import Coq.Strings.String.
+Example roundtrip_nonvacuous :
+  let p := mkPat [Lit (T "/f/"); Hole (T "a") spec_default_hole; Lit (T "."); Hole (T "b") (mkHre CDigit 1 None);
+                  Lit (T "/")] (Some (T "rest")) in
+  print_pat p = T "/f/{a}.{b:\d+}/*rest" /\ parse_core no_oracle (Some spec_default_hole) (print_pat p) = Ok p.
+Proof. vm_compute. split; reflexivity. Qed.
+
+(* multi-atom placeholders: parsing, grouping, greedy backtracking across atoms *)
+Example multi_atom_nonvacuous :
+  parse_reg_m (T "\d{4}-\d{2}")
+    = Some [mkHre CDigit 4 (Some 4); mkHre (CSet false [CChar 45%N]) 1 (Some 1); mkHre CDigit 2 (Some 2)]
+  /\ (exists p, parse_pattern_m no_oracle (T "/{d:\d{4}-\d{2}}/{x:a?a?aa}{y:[a-z]+\d*}") = Ok p
+        /\ match_pat_m no_oracle p (T "/2024-09/aaab7") = Some [(T "d", MText (T "2024-09")); (T "x", MText (T "aaa"));
+                                                               (T "y", MText (T "b7"))]
+        /\ match_pat_m no_oracle p (T "/2024-9/aaab7") = None)
+  /\ parse_pattern_m no_oracle (T "/{a:\d}{a:\d}") = CompileError
+  /\ parse_pattern_m no_oracle (T "/{a:\d+?}") = Unsupported.
+Proof. vm_compute. repeat split. eexists. repeat split. Qed.
